@@ -36,10 +36,12 @@ OK_FALSE = ('ok', 'False')
 OK_NONE = ('ok', 'None')
 
 
-def apply(state, op):
+def apply(state, op, depth=0):
     name = op['op']
     if name == 'txn':
-        return _txn(state, op)
+        return _txn(state, op, depth)
+    if name == 'sleep':
+        return state, OK_NONE
     if name == 'len':
         return state, ('ok', fp(len(state)))
     if name == 'clear':
@@ -113,18 +115,21 @@ def _val(op):
     return fp_spec(op['v'])
 
 
-def _txn(state, op):
+def _txn(state, op, depth=0):
+    """Blocks nest and only the outermost one commits or rolls back: an
+    inner block that raises (and whose exception the outer body swallows)
+    leaves its effects pending in the outer transaction."""
     body = op['body']
     raise_at = op.get('raise_at')
     results = []
     cur = state
     for i, sub in enumerate(body):
         if raise_at is not None and i == raise_at:
-            return state, ('ok', 'abort:' + json.dumps(results))
-        cur, r = apply(cur, sub)
+            return (state if depth == 0 else cur), ('ok', 'abort:' + json.dumps(results))
+        cur, r = apply(cur, sub, depth + 1)
         results.append(r)
     if raise_at is not None and raise_at >= len(body):
-        return state, ('ok', 'abort:' + json.dumps(results))
+        return (state if depth == 0 else cur), ('ok', 'abort:' + json.dumps(results))
     return cur, ('ok', 'commit:' + json.dumps(results))
 
 
